@@ -187,14 +187,14 @@ struct SIMDVector {
         return out;
     }
     FASTOR_INLINE T minimum() {
-        T quan = 0;
+        T quan = value[0]; // start from a lane, not from 0 (wrong for all-positive lanes)
         for (FASTOR_INDEX i=0; i<Size;++i)
             if (value[i]<quan)
                 quan = value[i];
         return quan;
     }
     FASTOR_INLINE T maximum() {
-        T quan = 0;
+        T quan = value[0]; // start from a lane, not from 0 (wrong for all-negative lanes)
         for (FASTOR_INDEX i=0; i<Size;++i)
             if (value[i]>quan)
                 quan = value[i];
